@@ -348,7 +348,7 @@ func runCase(c *kit.Case) {
 		if len(wl) > 30 {
 			wl = wl[len(wl)-30:]
 		}
-		c.Violation(cls, msg, map[string]any{"channels": cfgs, "keys": w.keys, "ops_tail": ops, "handler_calls_tail": calls, "sweeps_tail": wl, "late_margin_ms": lateMarginMs})
+		c.Violation(cls, mm.Clean(msg), map[string]any{"channels": cfgs, "keys": w.keys, "ops_tail": ops, "handler_calls_tail": calls, "sweeps_tail": wl, "late_margin_ms": lateMarginMs})
 	}
 
 	time.Sleep(time.Duration(r.Range(1, 999)) * time.Millisecond)
